@@ -44,7 +44,7 @@ Definition line_ids (l : angline) : list Z := match l with ALPhase i => [i] | _ 
 Definition line_names (l : angline) : list string :=
   match l with ALName (w :: ws) => [join " " (w :: ws)] | _ => [] end.
 Definition line_formulas (l : angline) : list string :=
-  match l with ALFormula (w :: ws) => [last (w :: ws) ""] | _ => [] end.
+  match l with ALFormula (w :: ws) => [join " " (w :: ws)] | _ => [] end.   (* all words, as for names (repair 684967f) *)
 Definition line_pgs (l : angline) : list string :=
   match l with ALSym (w :: ws) => [last (w :: ws) ""] | _ => [] end.
 Definition line_lats (l : angline) : list (list T) := match l with ALLat vs => [vs] | _ => [] end.
